@@ -215,12 +215,14 @@ def run(ctx: Any, prog: Program) -> None:
     ctx.rule('C04.A4', 'operator dispatch computes the documented value and class for every operand pair and operator form', floor=40)
     ctx.rule('C04.A5', 'Euler extraction atan2 arguments are (k sin x, k cos x) for the extracted angle; gimbal threshold 0.001', floor=6)
     ctx.rule('C04.A6', 'Cython siblings agree with the Python formulas', floor=25)
+    ctx.rule('C04.A11', 'inverse(): each elimination loop visits every row of its range (no early exit; rows skipped only when their pivot-column entry is exactly zero) and updates both halves alike', floor=4)
     ctx.rule('C04.A8', 'inverse(): the pivot chosen in each column is the entry of largest magnitude, so an invertible matrix never fails the final threshold test because of pivot choice', floor=1)
     ctx.rule('C04.A9', 'rotation operators are functions of their operands alone: no module-level state is written on the way', floor=10)
     ctx.rule('C04.A10', 'Euler components of two rotations are never simply added, except when the rotation applied second is a pure yaw', floor=1)
     ctx.rule('C04.A7', 'in-place kernels are alias safe, or are only called with a fresh receiver (m @= m computes m @ m)', floor=4)
 
     a8_pivoting(ctx, mt)
+    a11_elimination(ctx, mt)
     a9_operator_purity(ctx, mt)
     a10_no_component_addition(ctx, mt)
     # A7 first: it needs no algebra, and its definite findings must be reported even when a later step declines
@@ -597,6 +599,47 @@ def a8_pivoting(ctx: Any, mt: Any) -> None:
     ctx.shape('C04.A8', False, mt, g, f'pivot selection test `{U(t)}` is not an enumerated form', func='MatrixBase.inverse', text='pivot selection')
 
 
+def a11_elimination(ctx: Any, mt: Any) -> None:
+    """Gauss-Jordan in inverse(): a loop whose body subtracts a multiple of the pivot row from row <loop variable> has to reach every row of
+    its range.  `break` (or return) abandons the rows after the current one; `continue` is harmless only when it skips a row whose entry in the
+    pivot column is exactly zero (the multiplier would be 0).  Both halves of the augmented matrix get the same update."""
+    inv = mt.func('MatrixBase.inverse')
+    loops = []
+    for l in ast.walk(inv):
+        if isinstance(l, ast.For) and isinstance(l.target, ast.Name):
+            steps = [a for a in l.body for a in ([a] if isinstance(a, ast.AugAssign) else []) if isinstance(a.op, ast.Sub) and isinstance(a.target, ast.Subscript) and dotted(a.target.slice) == l.target.id]
+            if steps:
+                loops.append((l, steps))
+    ctx.shape('C04.A11', len(loops) == 2, mt, inv, f'two elimination loops (below the pivot, above the pivot) expected in inverse(), found {len(loops)}', func='MatrixBase.inverse', text='elimination loops')
+    parents = mt.parents
+    for l, steps in loops:
+        var = l.target.id
+        where = f'for {var} in {U(l.iter)}'
+        def own(n: ast.AST) -> bool:
+            p = parents.get(n)
+            while p is not None and not isinstance(p, (ast.For, ast.While)):
+                p = parents.get(p)
+            return p is l
+        exits = [n for n in ast.walk(l) if isinstance(n, (ast.Break, ast.Return)) and (isinstance(n, ast.Return) or own(n))]
+        ctx.check('C04.A11', not exits, mt, exits[0] if exits else l, f'inverse(): `{where}` is left early (line {exits[0].lineno if exits else 0}): the rows after the current one keep their entry in the pivot column, '
+                  'the result is not the inverse (a pitch-only rotation already has such an exactly-zero entry)', func='MatrixBase.inverse', text=f'{where}: every row visited')
+        for c in [n for n in ast.walk(l) if isinstance(n, ast.Continue) and own(n)]:
+            g = parents.get(c)
+            t = g.test if isinstance(g, ast.If) and c in g.body else None
+            zero_entry = False
+            if isinstance(t, ast.Compare) and len(t.ops) == 1 and isinstance(t.ops[0], ast.Eq) and isinstance(t.comparators[0], ast.Constant) and t.comparators[0].value == 0 \
+                    and isinstance(t.left, ast.Subscript) and isinstance(t.left.value, ast.Subscript) and dotted(t.left.value.slice) == var:
+                zero_entry = True
+            if isinstance(t, ast.UnaryOp) and isinstance(t.op, ast.Not) and isinstance(t.operand, ast.Subscript) and isinstance(t.operand.value, ast.Subscript) and dotted(t.operand.value.slice) == var:
+                zero_entry = True
+            ctx.check('C04.A11', zero_entry, mt, c, f'inverse(): `{where}` skips a row under `{U(t) if t is not None else "?"}`, which is not "its entry in the pivot column is exactly zero"', func='MatrixBase.inverse',
+                      text=f'{where}: rows skipped only when already eliminated')
+        bases = sorted({dotted(a.target.value) or '?' for a in steps})
+        mults = {U(a.value.right) if isinstance(a.value, ast.BinOp) and isinstance(a.value.op, ast.Mult) else U(a.value) for a in steps}
+        ctx.check('C04.A11', len(bases) == 2 and len(steps) == 2 and len(mults) == 1, mt, steps[0], f'inverse(): `{where}` updates {bases} with multipliers {sorted(mults)}: both halves of the augmented matrix need the same row operation',
+                  func='MatrixBase.inverse', text=f'{where}: same operation on both halves')
+
+
 def _alias_hazard(fn: ast.AST, params: List[str]) -> Optional[Tuple[str, str, str, ast.AST]]:
     """First (written object, read object, field, node) such that on some path a field of one parameter is written and later the same
     field is read through a different parameter.  Branches are followed separately (a write in one arm is not seen by the other)."""
@@ -882,6 +925,10 @@ def analyse_to_angle(ctx: Any, rule: str, relpath: str, qual: str, body: List[as
 
 
 MUTANTS = [
+    {'id': 'ok_angle_matrix_shared_helper', 'file': 'math.py', 'find': "    def __matmul__(self, other: 'MatrixBase | AngleBase') -> Self:\n        if isinstance(other, MatrixBase):\n            rot = other", 'replace': "    def _ang_rot(self, source: 'AngleBase', dest: AngleT) -> AngleT:\n        mat = Py_Matrix.from_angle(source)\n        mat._mat_mul(self)\n        return mat._to_angle(dest)\n\n    def __matmul__(self, other: 'MatrixBase | AngleBase') -> Self:\n        if isinstance(other, MatrixBase):\n            rot = other", 'extra': [{'file': 'math.py', 'find': "        elif isinstance(other, MatrixBase):\n            mat = Py_Matrix.from_angle(self)\n            mat._mat_mul(other)\n            cls = type(self)\n            return mat._to_angle(cls.__new__(cls))", 'replace': "        elif isinstance(other, MatrixBase):\n            cls = type(self)\n            return other._ang_rot(self, cls.__new__(cls))"}], 'expect': None},
+    {'id': 'elimination_breaks_on_zero', 'file': 'math.py', 'find': "            for m in range(n+1, 3):\n                # Get the multiplier\n", 'replace': "            for m in range(n+1, 3):\n                if mat_l[m][n] == 0.0:\n                    break\n                # Get the multiplier\n", 'expect': 'C04.A11'},
+    {'id': 'ok_elimination_continues_on_zero', 'file': 'math.py', 'find': "            for m in range(n+1, 3):\n                # Get the multiplier\n", 'replace': "            for m in range(n+1, 3):\n                if mat_l[m][n] == 0.0:\n                    continue\n                # Get the multiplier\n", 'expect': None},
+    {'id': 'elimination_right_half_forgotten', 'file': 'math.py', 'find': "                mat_l[m] -= mat_l[n] * v\n                mat_r[m] -= mat_r[n] * v\n", 'replace': "                mat_l[m] -= mat_l[n] * v\n", 'expect': 'C04.A11'},
     {'id': 'angle_addition_when_either_is_pure_yaw', 'file': 'math.py', 'find': "        mat = Py_Matrix.from_angle(target)\n        mat @= self\n", 'replace': "        if (target._pitch == 0.0 == target._roll) or (self._pitch == 0.0 == self._roll):\n            return cls(target._pitch + self._pitch, target._yaw + self._yaw, target._roll + self._roll)\n        mat = Py_Matrix.from_angle(target)\n        mat @= self\n", 'expect': 'C04.A10'},
     {'id': 'angle_addition_when_second_is_pure_yaw', 'file': 'math.py', 'find': "        mat = Py_Matrix.from_angle(target)\n        mat @= self\n", 'replace': "        if self._pitch == 0.0 == self._roll:\n            return cls(target._pitch + self._pitch, target._yaw + self._yaw, target._roll + self._roll)\n        mat = Py_Matrix.from_angle(target)\n        mat @= self\n", 'expect': None, 'refuse_ok': True},
     {'id': 'vec_rotation_matrix_memo', 'file': 'math.py', 'find': "        elif isinstance(other, AngleBase):\n            mat = Py_Matrix.from_angle(other)\n        else:\n            return NotImplemented\n        res = type(self)(self._x, self._y, self._z)", 'replace': "        elif isinstance(other, AngleBase):\n            mat = _angle_rot(other)\n        else:\n            return NotImplemented\n        res = type(self)(self._x, self._y, self._z)", 'extra': [{'file': 'math.py', 'find': "def format_float(x: float, places: int = 6) -> str:", 'replace': "_last_vec_rot = (None, None)\n\n\ndef _angle_rot(ang):\n    global _last_vec_rot\n    last_ang, mat = _last_vec_rot\n    if mat is None or last_ang is not ang:\n        mat = Py_Matrix.from_angle(ang)\n        _last_vec_rot = (ang, mat)\n    return mat\n\n\ndef format_float(x: float, places: int = 6) -> str:"}], 'expect': 'C04.A9'},
